@@ -4,7 +4,7 @@ import ast
 
 from .. import AnalysisError
 from ..cfg import ALL_KINDS, NORMAL_KINDS, iter_own
-from ..lib import guard_forms, key_of, norm, render, type_is
+from ..lib import dominated_by, iteration_paths, guard_forms, key_of, norm, render, type_is
 from ..report import describe, rule
 from .common import report_role, role_typestate
 
@@ -158,6 +158,7 @@ def c13_4(ctx, r):
                                 f"Job.{t.attr} is reset for jobs that are not being resubmitted (their recorded outcome is discarded)",
                                 guards=sorted(f for f, p in forms))
     reset_restores_blockers(ctx, r, pf)
+    closure_before_consumers(ctx, r, "C13.4")
     # the reset visits every job (a selected job may be in any state: a missing job of a killed batch is still 'submitted')
     rl = [n for n in iter_own(pf.node) if isinstance(n, ast.For) and any(isinstance(x, ast.Assign) and any(isinstance(t, ast.Attribute) and t.attr == "state" for t in x.targets) for x in ast.walk(n))]
     if len(rl) != 1:
@@ -181,6 +182,31 @@ def c13_4(ctx, r):
             forms = guard_forms(ctx, pf, node, ALL_KINDS, kill=False)
             r.check(("<ClusterConfig.is_complete>", True) in forms, "is_complete cleared only after asserting it was set", key_of(pf, "clear is_complete"), pf.loc(node.ast),
                     "prepare_for_resubmission clears is_complete without asserting completeness")
+
+
+def closure_before_consumers(ctx, r, rid):
+    """The rerun set is closed under 'depends on' before anything reads it: every other call in resubmit_jobs that
+    receives the set handed to (and grown in place by) _update_with_blocking_jobs is dominated by that call."""
+    fn = ctx.fn(FN, rid)
+    cl = ctx.one_site(fn, rid, short="resubmit_jobs._update_with_blocking_jobs")
+    a0 = cl.node.args[0] if cl.node.args else None
+    if not isinstance(a0, ast.Name):
+        raise AnalysisError(rid, "the rerun set handed to _update_with_blocking_jobs is not a local")
+    cnodes = ctx.nodes_of(fn, cl.node)
+    n = 0
+    for s in ctx.cg.sites_in(fn):
+        if s is cl or not (s.callees or s.external):
+            continue
+        uses = [x for x in list(s.node.args) + [k.value for k in s.node.keywords] if isinstance(x, ast.Name) and x.id == a0.id]
+        if not uses or ctx.src(s.node.func) in ("len", "print", "sorted"):
+            continue
+        n += 1
+        for node in ctx.nodes_of(fn, s.node):
+            r.check(dominated_by(ctx, fn, node, cnodes), f"{ctx.src(s.node.func)}() reads the rerun set after the dependent closure", key_of(fn, f"{ctx.src(s.node.func)} before the closure"), s.loc,
+                    f"{ctx.src(s.node.func)}({a0.id}) runs before _update_with_blocking_jobs() added the transitive dependents: it acts on the selected jobs only, so the dependents that are rerun "
+                    "keep their old rows (two entries per job afterwards) or are not reset", "afterwards the results again hold one entry per job")
+    if n < 2:
+        raise AnalysisError(rid, f"only {n} consumers of the rerun set recognised (expected the result pruning and the state reset)")
 
 
 def reset_restores_blockers(ctx, r, pf):
@@ -262,6 +288,17 @@ def c13_5(ctx, r):
                 f"`{ctx.src(st)}`: a rerun dependent keeps blockers that are not rerun; those are already done, never complete again, so the dependent stays blocked for ever and ends up missing",
                 "each once and in dependency order ... afterwards the results again hold one entry per job")
         r.check(ctx.src(st.targets[0].slice) == "job.name", "stored under the dependent's name", key_of(fn, "restricted blockers key"), fn.loc(st), f"stored under {ctx.src(st.targets[0].slice)}")
+    # every pass records the restricted set of every job with a selected blocker: the only ways past the store are
+    # "no blockers" / "no selected blocker" (a job recorded by an earlier pass must be re-recorded: the rerun set grew)
+    if stores and inner:
+        snodes = [n for st in stores for n in ctx.nodes_of(fn, st)]
+        for end, conds, last in iteration_paths(ctx, fn, inner[0], avoid=snodes):
+            falsy = {f for f, p in conds if not p}
+            okp = end == "next" and any(f in ("blocking_jobs", "intersecting_jobs") or "get_blocking_jobs()" in f or "intersection(jobs_to_resubmit)" in f for f in falsy)
+            other = sorted(("" if p else "not ") + f for f, p in conds)
+            r.check(okp, "a job is passed over only if it has no blockers / no selected blocker", key_of(fn, f"closure pass skips under {other}"), fn.loc(last.stmt if last.stmt is not None else inner[0]),
+                    f"a closure pass {'leaves the scan' if end == 'leave' else 'skips a job'} under {other} without recording its restricted blockers: a dependent whose blockers join the rerun set in a later pass keeps "
+                    "the stale (smaller) set, so it is released before all of its rerun blockers have finished", "each once and in dependency order")
     # prepare_for_resubmission reads that mapping for the job being reset
     pfn = ctx.ix.try_func("Cluster._prepare_for_resubmission") or ctx.fn("Cluster.prepare_for_resubmission", "C13.5")
     okr = any(isinstance(n, ast.Assign) and ctx.src(n.targets[0]).endswith(".blocked_by") and ctx.src(n.value).replace(" ", "") == "updated_blocking_jobs_by_name.get(job.name,set())" for n in iter_own(pfn.node))
